@@ -46,7 +46,7 @@ def gen_programs(ctx):
         P(n, 2, ["q%d,3000" % (3 * n), "f1"])                             # queued and in progress at the stop
         P(n, 1, ["w", "I", "w", "f1"])                                    # idle waits return at once
         P(n, 1, ["q%d,500" % (n + 1), "f0"])                              # stop without draining
-    nrand = 1500 if ctx.thorough else 170
+    nrand = 6000 if ctx.thorough else 600
     for _ in range(nrand):
         n = rng.choice([1, 1, 2, 2, 3, 4, 5, 8])
         perturb = rng.choice([0, 1, 2, 2, 3])
@@ -202,7 +202,9 @@ def run_harness(ctx, exe, progs, hang_secs=20, env_extra=None, timeout=1500):
     while todo:
         rc, lines, err = vlib.run_lines([exe, str(hang_secs)], todo, timeout=timeout, env=env)
         lines = [l for l in lines if l.startswith("R ") or l.startswith("? ")]
-        stderr_all += "".join(l + "\n" for l in err.splitlines() if "stacksize" not in l)[-4000:]
+        err = "".join(l + "\n" for l in err.splitlines() if "stacksize" not in l)
+        k = err.find("ERROR:")
+        stderr_all += err[max(k - 20, 0):][:4000] if k >= 0 else err[-2000:]
         out += lines
         if len(lines) >= len(todo):
             break
@@ -248,7 +250,9 @@ def run(ctx):
     src = [os.path.join(vlib.HARNESS, "work_harness.c"), os.path.join(vlib.REPO, "src/munged/work.c")] + \
           [os.path.join(vlib.REPO, "src/libcommon", f) for f in ("log.c", "daemonpipe.c", "str.c", "fd.c")]
     wrapflags = ["-Wl,--wrap=" + w for w in WRAPS]
-    exe, err = vlib.cc(ctx, "workh", src, extra=wrapflags, libs=["-lpthread"])
+    # asan-stack=0: pthread_cancel unwinds through instrumented frames without unpoisoning their red zones, which makes
+    # ASan's own thread teardown trip over stale stack poison (false positive); heap checking is what matters here
+    exe, err = vlib.cc(ctx, "workh", src, extra=wrapflags + ["--param", "asan-stack=0"], libs=["-lpthread"])
     if exe is None:
         ctx.violation("work harness does not build against /repo: " + err[-500:],
                       {"obligation": "correspondence C12 (build)", "stderr": err}, found_input=False)
@@ -298,7 +302,7 @@ def run(ctx):
         for op in f[4:]:
             dist["ops"][op[0]] = dist["ops"].get(op[0], 0) + 1
         if res is not None and res.get("crash"):
-            failures.append((prog, o, "work.c crashes or aborts under ASan/UBSan: " + stderr[-1500:], {}))
+            failures.append((prog, o, "work.c crashes or aborts under ASan/UBSan: " + stderr[:1500], {}))
             continue
         why = property_holds(prog, res)
         if why:
